@@ -51,6 +51,7 @@ var impWants = []impWant{
 	{dir: "align", pkg: "align",
 		funcs: []string{"SubstitutionMatrix.Get", "decideOnStep", "traceAlignmentSteps", "Global",
 			"argmax", "traceAlignmentStepsLocal", "Local"}},
+	{dir: "align", pkg: "alignf", funcs: []string{"SubstitutionMatrix.Symmetrical"}, floatAs: "F"},
 	{dir: "formats/fasta", pkg: "fasta", funcs: []string{"Fasta.Write", "Fasta.MarshalText"}, join: true},
 	{dir: "formats/fasta", pkg: "fastard", funcs: []string{"reader.read", "reader.iter", "Reader"}, errZ: true},
 	{dir: "formats/fastq", pkg: "fastq", funcs: []string{"Fastq.Write", "Fastq.MarshalText"}, join: true},
@@ -703,7 +704,14 @@ func (t *impTr) binary(e *ast.BinaryExpr, pre *[]opener) string {
 			}
 			return "(negb (is_zeroF " + x + "))"
 		}
-		t.fail(e, "float operation other than a comparison with zero")
+		if e.Op == token.EQL || e.Op == token.NEQ {
+			a, b := t.ex(e.X, pre), t.ex(e.Y, pre)
+			if e.Op == token.EQL {
+				return fmt.Sprintf("(go_feq %s %s)", a, b)
+			}
+			return fmt.Sprintf("(negb (go_feq %s %s))", a, b)
+		}
+		t.fail(e, "float operation other than == and !=")
 	}
 	rt := t.typeOf(e.Y)
 	switch e.Op {
@@ -1776,11 +1784,17 @@ func (t *impTr) assign(s *ast.AssignStmt, pre *[]opener) {
 					}
 				}
 				cl, ok := ie.Index.(*ast.CompositeLit)
-				if !ok || len(cl.Elts) != 2 {
+				var m, a, b string
+				if ok && len(cl.Elts) == 2 {
+					m = t.ex(ie.X, pre)
+					a, b = t.ex(cl.Elts[0], pre), t.ex(cl.Elts[1], pre)
+				} else if arr, isArr := mt.Key().Underlying().(*types.Array); isArr && arr.Len() == 2 {
+					m = t.ex(ie.X, pre)
+					k := t.ex(ie.Index, pre)
+					a, b = "(fst "+k+")", "(snd "+k+")"
+				} else {
 					t.fail(s, "comma-ok read with an unsupported key")
 				}
-				m := t.ex(ie.X, pre)
-				a, b := t.ex(cl.Elts[0], pre), t.ex(cl.Elts[1], pre)
 				v, okv := t.fresh(), t.fresh()
 				*pre = append(*pre, opener{fmt.Sprintf("let '(%s, %s) := match assoc2 %s %s %s with Some v__ => (v__, true) | None => (%s, false) end in ", v, okv, m, a, b, t.zero(mt.Elem())), ""})
 				t.store(s.Lhs[0], v, pre)
